@@ -1,6 +1,6 @@
 (** C14 -- executable comparison of an observed run (implementation on DuckDB, or PySpark recording) with the
     model and the spec.  Used by checks/c14.py through vm_compute; nothing here is a proof obligation. *)
-From SF Require Import Base.Val C14.Writer C14.WriterProof C14.Views.
+From SF Require Import Base.Val C14.Writer C14.WriterProof C14.Views C14.Builder.
 Open Scope string_scope.
 Open Scope nat_scope.
 
@@ -148,31 +148,57 @@ Definition x_faithful_ok (c : cfg) (m : mstate * views) (xo : xop) : bool :=
   | XForeign n => ident_ok n
   end.
 
+Record ycase := mkYCase { y_ops : list yop; y_obs : list obs; y_snaps : list snap }.
+
+Definition y_judge_ok (s : sstate * views) (yo : yop) : bool :=
+  match yo with
+  | YOp xo => x_judge_ok s xo
+  | YInsert calls n d => forallb call_known calls && x_judge_ok s (XOp (OpInsert n (w_by_name (brun ideal calls)) d))
+  | YSave calls n arg d => forallb call_known calls && x_judge_ok s (XOp (OpSave n arg (w_mode (brun ideal calls)) d))
+  | YWrite calls p f arg d => forallb call_known calls && x_judge_ok s (XOp (OpWrite p f arg (w_mode (brun ideal calls)) d))
+  end.
+(** the model's exact region, on the flags the regenerated builder computes *)
+Definition y_faithful_ok (c : cfg) (b : bcfg) (m : mstate * views) (yo : yop) : bool :=
+  match yo with
+  | YOp xo => x_faithful_ok c m xo
+  | YInsert calls n d => forallb call_known calls && x_faithful_ok c m (XOp (OpInsert n (w_by_name (brun b calls)) d))
+  | YSave calls n arg d =>
+      let w := brun b calls in
+      forallb call_known calls
+      && if w_by_name w
+         then match sat_plan c (ahas n (m_tabs (fst m))) arg (w_mode w) with
+              | SatInsert => x_faithful_ok c m (XOp (OpInsert n true d)) && mode_known arg && mode_known (w_mode w)
+              | SatCreate _ _ => x_faithful_ok c m (XOp (OpSave n arg (w_mode w) d))
+              end
+         else x_faithful_ok c m (XOp (OpSave n arg (w_mode w) d))
+  | YWrite calls p f arg d => forallb call_known calls && x_faithful_ok c m (XOp (OpWrite p f arg (w_mode (brun b calls)) d))
+  end.
+
 (** per step eight characters:
     impl obs = model obs | impl snapshot = model state | impl obs = spec obs | impl snapshot = spec state |
     step in the theorem's domain | model = spec on this step (observation and abstract state) |
     step may be judged against the spec | step inside the model's exact region *)
-Fixpoint walk (c : cfg) (residue : residue_fn) (m : mstate * views) (s : sstate * views)
-         (ops : list xop) (io : list obs) (sn : list snap) : string :=
+Fixpoint walk (c : cfg) (b : bcfg) (residue : residue_fn) (m : mstate * views) (s : sstate * views)
+         (ops : list yop) (io : list obs) (sn : list snap) : string :=
   match ops, io, sn with
   | o :: ops', i :: io', n :: sn' =>
-      let ok := x_step_ok c residue m o in
-      let '(m', mo) := x_m_step c residue m o in
-      let '(s', so) := x_s_step s o in
+      let ok := y_step_ok c residue m o in
+      let '(m', mo) := y_m_step c b residue m o in
+      let '(s', so) := y_s_step s o in
       bit (obs_match i mo) ++ bit (snap_match n (m_tabs (fst m')) (m_files (fst m')) (snd m'))
       ++ bit (obs_match i so) ++ bit (snap_match n (s_tabs (fst s')) (s_files (fst s')) (snd s'))
       ++ bit ok
       ++ bit (obs_match mo so && tabs_match (m_tabs (fst m')) (s_tabs (fst s'))
               && list_eqb (fun a b => String.eqb (fst a) (fst b) && content_eqb (snd a) (snd b))
                           (m_files (fst m')) (s_files (fst s')))
-      ++ bit (x_judge_ok s o)
-      ++ bit (x_faithful_ok c m o)
-      ++ walk c residue m' s' ops' io' sn'
+      ++ bit (y_judge_ok s o)
+      ++ bit (y_faithful_ok c b m o)
+      ++ walk c b residue m' s' ops' io' sn'
   | _, _, _ => ""
   end.
 
-Definition check (c : cfg) (k : xcase) : string :=
-  walk c (residue_of c) (m_init, []) (s_init, []) (x_ops k) (x_obs k) (x_snaps k).
+Definition check (c : cfg) (b : bcfg) (k : ycase) : string :=
+  walk c b (residue_of c) (m_init, []) (s_init, []) (y_ops k) (y_obs k) (y_snaps k).
 
 (** spec conformance: a PySpark recording against the spec alone (one character per step) *)
 Fixpoint walk_spec (s : sstate) (ops : list op) (io : list obs) : string :=
